@@ -85,10 +85,33 @@ def CurveP.gen (c : CurveP) : Jac := ⟨c.gx, c.gy, 1⟩
 /-- `[k]·G` in Jacobian coordinates. -/
 def CurveP.mulGen (c : CurveP) (k : Nat) : Jac := smulFuel c.p (k.log2 + 1) k c.gen Jac.inf
 
+/-- `[G, 2G, 4G, …, 2^(n-1) G]`. -/
+def doublings (p : Nat) : Nat → Jac → List Jac
+  | 0, _ => []
+  | n + 1, P => P :: doublings p n (jdouble p P)
+
+/-- Sum of the table entries selected by the bits of `k` (least significant first). -/
+def sumBits (p : Nat) : List Jac → Nat → Jac → Jac
+  | [], _, acc => acc
+  | P :: t, k, acc => if k = 0 then acc else sumBits p t (k / 2) (if k % 2 = 1 then jadd p acc P else acc)
+
+/-- `[k]·G` from a precomputed table of doublings (same value as `mulGen`, faster in the driver). -/
+def CurveP.mulGenTable (c : CurveP) (table : List Jac) (k : Nat) : Jac := sumBits c.p table (k % c.r) Jac.inf
+
+/-- Modular inverse by the extended Euclidean algorithm (`0` for `0`). -/
+def invEuclid (a m : Nat) : Nat :=
+  go (2 * m.log2 + 4) (m : Int) ((a % m : Nat) : Int) 0 1
+where
+  go : Nat → Int → Int → Int → Int → Nat
+    | 0, _, _, _, _ => 0
+    | fuel + 1, r0, r1, t0, t1 =>
+      if r1 = 0 then (if r0 = 1 then (t0 % m).toNat else 0)
+      else let q := r0 / r1; go fuel r1 (r0 - q * r1) t1 (t0 - q * t1)
+
 /-- Affine coordinates, `none` for the point at infinity. -/
 def toAffine (p : Nat) (P : Jac) : Option (Nat × Nat) :=
   if P.z % p = 0 then none else
-  let zi := invMod P.z p
+  let zi := invEuclid P.z p
   let zi2 := mulMod zi zi p
   some (mulMod P.x zi2 p, mulMod P.y (mulMod zi2 zi p) p)
 
